@@ -93,8 +93,9 @@ def run_two_random_crop(cfg, ch):
     import torch
     import torchvision.transforms.functional as F
     from kappadata.transforms.kd_two_random_crop import KDTwoRandomCrop
-    h, w, size, omin, omax, pil = cfg
-    t = KDTwoRandomCrop(size=size, overlap_min=omin, overlap_max=omax, tries=2)
+    h, w, size, omin, omax, pil = cfg[:6]
+    padding = cfg[6] if len(cfg) > 6 else None
+    t = KDTwoRandomCrop(size=size, overlap_min=omin, overlap_max=omax, tries=2, **({} if padding is None else dict(padding=padding)))
     t.set_rng(rng_for(ch))
     x = coded(h, w, pil)
     ctx = {}
@@ -102,6 +103,10 @@ def run_two_random_crop(cfg, ch):
         y = t(x, ctx=ctx)
     except REJECT:
         return "rejected", None
+    if padding is not None:
+        # the recorded boxes refer to the padded image (zero fill)
+        x = F.pad(x, [padding, padding] if isinstance(padding, int) else list(padding))
+        h, w = h + 2 * (padding if isinstance(padding, int) else padding[1]), w + 2 * (padding if isinstance(padding, int) else padding[0])
     c = ctx.get("two_random_crop")
     if not isinstance(y, list) or len(y) != 2 or not c:
         return "output_or_ctx_malformed", repr(type(y))
@@ -554,6 +559,9 @@ def configs(tier):
         for size in (1, 2, 4):
             for om, ox in ((None, None), (0.2, 0.6), (0.05, 1.0)):
                 out.append(("two_random_crop", (h, w, size, om, ox, False), None))
+                if om is None and size <= 2:
+                    out.append(("two_random_crop", (h, w, size, om, ox, False, 1), None))
+                    out.append(("two_random_crop", (h, w, size, om, ox, False, (1, 2)), None))
         for size in (1, 3, (2, 4)):
             for scale in ((0.08, 1.0), (0.5, 1.0), (0.9, 1.0)):
                 for ratio in ((3 / 4, 4 / 3), (0.5, 2.0)):
